@@ -242,5 +242,5 @@ META = {
             "kills (cancel on exit), unsigned overflow of value_. Trusted: Coq kernel, extraction, harness/k1_sync.cpp, checks/k1_common.py and the "
             "outcome comparison in checks/C05.py.",
     "technique": "Coq proof (invariants + ghost token counters over all op sequences) + replay correspondence on the real scheduler",
-    "claimed": False,
+    "claimed": True,
 }
